@@ -12,6 +12,7 @@ import (
 	"fmt"
 	"io"
 	"net/http"
+	"net/http/httptest"
 	"strings"
 	"sync"
 
@@ -356,4 +357,22 @@ func (s *Server) handleReceivePack(w http.ResponseWriter, r *http.Request) {
 	}
 	s.logReq(r, "table-acks", 0, 200)
 	writeJSON(w, &payload.ReceivePackResponse{TableACKs: payload.BytesSliceToHexSlice(acks)})
+}
+
+// Transport returns an http.RoundTripper that hands every request to h in-process (no
+// sockets: an exploration of 10^5 sessions would otherwise exhaust the loopback ports).
+func Transport(h http.Handler) http.RoundTripper { return memTransport{h} }
+
+type memTransport struct{ h http.Handler }
+
+func (t memTransport) RoundTrip(req *http.Request) (*http.Response, error) {
+	rec := httptest.NewRecorder()
+	if req.Body == nil {
+		req.Body = http.NoBody
+	}
+	t.h.ServeHTTP(rec, req)
+	req.Body.Close()
+	resp := rec.Result()
+	resp.Request = req
+	return resp, nil
 }
